@@ -13,13 +13,15 @@ M = 'cherab.tools.raytransfer.emitters'
 
 
 PIPES = 'cherab/tools/raytransfer/pipelines.py'
+RTOBJ = 'cherab/tools/raytransfer/raytransfer.py'
 
 
 def check(run):
     prog = Program()
-    prog.load_many([FILE, PIPES])
+    prog.load_many([FILE, PIPES, RTOBJ])
     run.use_file(FILE)
     run.use_file(PIPES)
+    run.use_file(RTOBJ)
     run.explanation = (
         'Decides structural necessary conditions of C10 on both integrators, both emitters and the map setters: (R1) every store '
         'into the spectrum is dominated by "source index > -1" and the index is a voxel_map value: cells mapped to -1 receive '
